@@ -675,6 +675,9 @@ fn worker_main() -> ! {
             .location()
             .map(|l| l.file().rsplit('/').next().unwrap_or("").to_string())
             .unwrap_or_default();
+        if std::env::var("ZXH_PANIC_LOG").is_ok() {
+            eprintln!("worker panic: {} at {:?}", msg, info.location());
+        }
         if let Ok(mut g) = LAST_PANIC.lock() {
             *g = Some(canon_panic(&format!("{}@{}", msg, file)));
         }
@@ -1911,20 +1914,25 @@ fn shrink(ctx: &mut Ctx, c: &Case, key: &str, budget: usize) -> Case {
             }
         }
     }
-    // shorten / blank what is left
+    // shorten / blank what is left: shortest prefix of every segment that still fails the same way
     for i in 0..cur.segs.len() {
-        loop {
+        let full = match &cur.segs[i] {
+            Seg::H(b) => b.len(),
+            Seg::Z(n, _) => *n,
+        };
+        let (mut lo, mut hi) = (1usize, full);
+        while lo < hi && left > 0 {
+            let mid = (lo + hi) / 2;
             let mut cand = cur.clone();
-            let shorter = match &cur.segs[i] {
-                Seg::H(b) if b.len() > 1 => Seg::H(b[..b.len() / 2].to_vec()),
-                Seg::Z(n, v) if *n > 1 => Seg::Z(n / 2, *v),
-                _ => break,
+            cand.segs[i] = match &cur.segs[i] {
+                Seg::H(b) => Seg::H(b[..mid].to_vec()),
+                Seg::Z(_, v) => Seg::Z(mid, *v),
             };
-            cand.segs[i] = shorter;
             if same(ctx, &cand, &mut left) {
+                hi = mid;
                 cur = cand;
             } else {
-                break;
+                lo = mid + 1;
             }
         }
         if let Seg::H(b) = &cur.segs[i] {
